@@ -19,7 +19,7 @@ def safe_fdt(cfg, fdt):
     n = len(cfg["times"])
     worst = 0
     for b in ("photon", "pixel", "signal"):
-        tot = sum(m["base"] + n for g in cfg["pipe"] for m in g if m["kind"] in ("add", "set") and m["b"] == b)
+        tot = sum(m["base"] + n for g in cfg["pipe"] for m in g if m["kind"] in ("add", "set", "cset") and m["b"] == b)
         if b == "pixel" and cfg["nd"]:
             tot *= n
         worst = max(worst, tot + max(cfg["prior"].get(b, 0), 0))
@@ -50,6 +50,8 @@ def debug_clause(ctx, traces):
                 act = mdl["mask"] == -1 or (k < 30 and (mdl["mask"] >> k) & 1)
                 if mdl["kind"] == "set" and act and mdl["b"] in after:
                     after[mdl["b"]] = mdl["base"] + k
+                elif mdl["kind"] == "cset" and act and mdl["b"] in after:
+                    after[mdl["b"]] = mdl["base"]
                 elif mdl["kind"] == "add" and act and mdl["b"] in after:
                     after[mdl["b"]] = max(after[mdl["b"]], 0) + mdl["base"] + k
                 elif mdl["kind"] == "padd" and act:
@@ -79,6 +81,11 @@ def run(ctx):
     for k, cfg in enumerate(cases):
         c = copy.deepcopy(cfg)
         c["imgdt"] = IMG[k % 4]
+        if k % 3 == 1:      # writers that leave the same content at every readout
+            for grp in c["pipe"]:
+                for mdl in grp:
+                    if mdl["kind"] == "set" and (mdl["b"] != "photon" or k % 2):
+                        mdl["kind"] = "cset"
         extra = {"fdt": safe_fdt(c, FLT[k % 3])}
         if k % 7 == 3:
             extra["photon3d"] = 3
@@ -96,7 +103,7 @@ def run(ctx):
     n = ctx.pick(120, 2500)
     jobs = []
     for k in range(n):
-        cfg = P.random_cfg(ctx.rng, max_models=3, max_steps=ctx.pick(6, 12), kinds=("set", "add", "padd", "obs"), p_img=0.9)
+        cfg = P.random_cfg(ctx.rng, max_models=3, max_steps=ctx.pick(6, 12), kinds=("set", "cset", "cset", "add", "padd", "obs"), p_img=0.9)
         jobs.append(dict(cfg=cfg, hier=ctx.rng.random() < 0.5, debug=ctx.rng.random() < 0.4,
                          extra={"fdt": safe_fdt(cfg, ctx.rng.choice(FLT))}, kind=ctx.rng.choice(["ccd", "cmos"])))
     traces = P.record(jobs)
@@ -105,6 +112,9 @@ def run(ctx):
     ctx.cov["recorded_random"] += len(traces)
     debug_clause(ctx, traces)
     P.validate(ctx, traces, "random")
+    # sessions: every run on re-used objects returns its own faithful record
+    traces = P.sessions(ctx, [], ctx.pick(40, 800), kinds=("obs", "set", "cset", "add"))
+    P.validate(ctx, traces, "sessions")
     ctx.assumptions += ["bucket arrays are level + fixed ramp; the result is read back through its y/x/time labels",
                         "a bucket empty at the end of a step yields an unconstrained slice (the code stores NaN)"]
 
